@@ -6,12 +6,12 @@ From Coq Require Import Strings.Byte NArith ZArith List.
 From Coq Require Import Strings.String.
 Import ListNotations.
 Local Open Scope list_scope.
-From LLIR Require Import Lib.Bytes Lib.Radix Model.Natsort Model.Assemble Model.Writer Gen.Enums Proofs.EnumProofs Model.IntLit Model.Enc Model.Types Model.TypeString Model.Gep Model.ResultType Model.Numbering Model.MetadataIDs Model.Skeleton.
+From LLIR Require Import Lib.Bytes Lib.Radix Model.Natsort Model.Assemble Model.Writer Gen.Enums Proofs.EnumProofs Model.IntLit Model.Enc Model.Types Model.TypeString Model.Gep Model.ResultType Model.Numbering Model.MetadataIDs Model.Skeleton Model.History.
 
 Definition byte_of_N_total (n : N) : byte := match Byte.of_N n with Some b => b | None => x00 end.
 (* C19: run the chunks against a writer failing after k bytes: (size, failed?, delivered, calls) *)
 Definition writeto_fail_after (k : nat) (chunks : list bytes) : nat * bool * bytes * nat :=
-  let s := run nat (fail_after k) 0 chunks in
+  let s := Writer.run nat (fail_after k) 0 chunks in
   (fw_size nat s, match fw_err nat s with Some _ => true | None => false end, fw_delivered nat s, fw_calls nat s).
 (* C18: the regenerated keyword tables *)
 Definition bytes_of_string (s : string) : bytes := list_byte_of_string s.
@@ -104,6 +104,13 @@ Definition sk_name (s : bytes) : Skeleton.ident := Skeleton.IName s.
 Definition sk_num (z : Z) : Skeleton.ident := Skeleton.INum z.
 Definition sk_ns (k : nat) : ns := match k with 0 => NType | 1 => NComdat | 2 => NGlobal | 3 => NAttr | _ => NMeta end.
 Definition sk_kind (k : nat) (target : Skeleton.ident) : tkind := match k with 0 => KPlain | 1 => KOpaque | _ => Skeleton.KAlias target end.
+(* C14 *)
+Definition h_insert (p : nat) (x : item) : op := Insert p x.
+Definition h_remove (p : nat) : op := Remove p.
+Definition h_rename (p : nat) (n : bool) : op := Rename p n.
+Definition h_print : op := Print.
+Definition h_query : op := Query.
+Definition c14_final (h : list op) (l : list item) : option (list item) := final_print h l.
 Definition sort_ids (l : list Z) : list Z := isort Z.ltb l.
 
 Extraction "model.ml" byte_of_N_total Byte.to_N
@@ -112,4 +119,4 @@ Extraction "model.ml" byte_of_N_total Byte.to_N
   Enc.global_name Enc.local_name Enc.label_name Enc.type_name Enc.comdat_name Enc.metadata_name Enc.escape_ident Enc.escape_string Enc.quote Enc.unescape
   Enc.global_id Enc.local_id Enc.label_id c11_dec_global c11_dec_local c11_dec_label c11_dec_type c11_dec_comdat c11_dec_metadata
   TypeString.ty_string TypeString.equal_go
-  gep_result gep_inst gep_parse gep_expr mk_index c06_ir c06_asm mk_item c08_assign Numbering.it_id mk_gent c08_print_after_parse c17_assign sk_translate sk_translate_rev mk_top mk_use sk_name sk_num sk_ns sk_kind.
+  gep_result gep_inst gep_parse gep_expr mk_index c06_ir c06_asm mk_item c08_assign Numbering.it_id mk_gent c08_print_after_parse c17_assign sk_translate sk_translate_rev mk_top mk_use sk_name sk_num sk_ns sk_kind h_insert h_remove h_rename h_print h_query c14_final Numbering.it_named.
